@@ -170,8 +170,19 @@ def bounded_order(rep, tier, seed):
             perms = list(itertools.permutations(range(n))) if n <= 4 else [tuple(rng.sample(range(n), n)) for _ in range(6 if tier == "quick" else 20)] + [tuple(reversed(range(n)))]
             for perm in perms:
                 p2 = pop.iloc[list(perm)].reset_index(drop=True)
-                variant = rng.choice(["plain", "labels", "float-ints", "debug"])
+                variant = rng.choice(["plain", "labels", "float-ints", "debug", "dict"])
                 kw = {}
+                data_in = None
+                if variant == "dict":
+                    # a dictionary of Series, every column carrying its own permutation of the labels: rows
+                    # are matched by position (as in every other step), never by label
+                    # (the id / pointer columns share one labelling: the input check compares them with
+                    # each other and refuses differently labelled Series loudly)
+                    data_in = {}
+                    lab0 = rng.sample(range(n), n)
+                    for c in p2.columns:
+                        lab = lab0 if (c == "p_id" or c.startswith("p_id_")) else rng.sample(range(n), n)
+                        data_in[c] = pd.Series(p2[c].to_numpy(), index=lab)
                 if variant == "labels":
                     p2.index = rng.sample(range(1000), n)
                 elif variant == "float-ints":
@@ -183,7 +194,7 @@ def bounded_order(rep, tier, seed):
                     p2.index = list(reversed(range(n)))
                     kw = {"debug": True}
                 try:
-                    res, _ = apirel.simulate(e, p2, targets=nodes, **kw)
+                    res, _ = apirel.simulate(e, p2 if data_in is None else data_in, targets=nodes, **kw)
                 except Exception as ex:  # noqa: BLE001
                     bad.append({"what": f"{d}: population {pi} in row order {perm} ({variant}) fails: {ex!r}"[:300], "date": d, "perm": list(perm)})
                     continue
@@ -198,7 +209,7 @@ def bounded_order(rep, tier, seed):
                     diff.append("p_id (debug output not in input order)")
                 if diff:
                     bad.append({"what": f"{d}: population {pi} ({list(pop['p_id'])}) in row order {perm} ({variant}): columns {diff[:5]} differ from the permuted baseline", "date": d, "perm": list(perm), "population": pi, "columns": diff[:5]})
-    rep.bounded["row_order"] = {"evaluations": n_eval, "distinct_nontrivial": len(distinct), "rule": "per date: five populations (patchwork, single parent + couple, parent with two self-supporting children + single, family + three generations + adult child, married + pensioners + single); ALL row permutations for <= 4 rows, seeded ones beyond; variants: plain / random index labels / float-typed int columns + labels + debug / reversed labels + debug; ALL ~320 nodes compared (floats at 1e-12 relative: the order of a floating-point group sum is not part of the contract, A1; derived ids as partitions); distinct = (date, population, permutation, variant)", "failures": [b["what"] for b in bad][:6]}
+    rep.bounded["row_order"] = {"evaluations": n_eval, "distinct_nontrivial": len(distinct), "rule": "per date: five populations (patchwork, single parent + couple, parent with two self-supporting children + single, family + three generations + adult child, married + pensioners + single); ALL row permutations for <= 4 rows, seeded ones beyond; variants: plain / random index labels / float-typed int columns + labels + debug / reversed labels + debug / dict of Series with one label permutation per column; ALL ~320 nodes compared (floats at 1e-12 relative: the order of a floating-point group sum is not part of the contract, A1; derived ids as partitions); distinct = (date, population, permutation, variant)", "failures": [b["what"] for b in bad][:6]}
     return bad, n_eval, len(distinct)
 
 
